@@ -420,6 +420,9 @@ class Env:
         self.chinfo = None      # impl ChargeInfo
         self.next_group = 0
         self.config = 'py'
+        self.ext = False        # program key `ext` (C01 coverage audit): option spaces / operations of harness/c01_ext.py; off = earlier behaviour
+        self.xr = None          # side generator of the `ext` choices
+        self.api_hook = None
 
     def new_group(self):
         self.next_group += 1
@@ -429,6 +432,19 @@ class Env:
 def _npc():
     import tenpy.linalg.np_conserved as npc
     return npc
+
+
+def api(env, name, **opts):
+    """coverage table of C01 (program key `ext`): the public name `name` of np_conserved was called with these (optional) arguments and its
+    result is compared with numpy by the runner"""
+    h = getattr(env, 'api_hook', None)
+    if h is not None:
+        h(name, opts)
+
+
+def ext_p(env, p):
+    """True with probability p in programs with the key `ext` (drawn from the side generator), always False otherwise"""
+    return bool(getattr(env, 'ext', False)) and env.xr.random() < p
 
 
 def mk_leg(env, sp):
@@ -478,6 +494,10 @@ def axarg(rng, T, i, p_label=0.4):
     if rng.random() < 0.15:
         return i - T.rank
     return i
+
+
+def as_list(x):
+    return list(x) if isinstance(x, (list, tuple)) else [x]
 
 
 def ax_index(T, a):
@@ -575,6 +595,8 @@ class OpTensordot:
         k = len(ia)
         if ia == list(range(A.rank - k, A.rank)) and ib == list(range(k)) and rng.random() < 0.5:
             return {'op': 'tensordot', 'a': a, 'b': b, 'axes': k}
+        if k == 1 and ext_p(env, 0.3):      # documented: axes_a / axes_b may be a single label / index
+            return {'op': 'tensordot', 'a': a, 'b': b, 'axes': [axarg(rng, A, ia[0]), axarg(rng, B, ib[0])]}
         return {'op': 'tensordot', 'a': a, 'b': b, 'axes': [[axarg(rng, A, i) for i in ia], [axarg(rng, B, j) for j in ib]]}
 
     @staticmethod
@@ -584,8 +606,8 @@ class OpTensordot:
         if isinstance(ax, int):
             ia, ib = list(range(A.rank - ax, A.rank)), list(range(ax))
         else:
-            ia = [ax_index(A, x) for x in ax[0]]
-            ib = [ax_index(B, x) for x in ax[1]]
+            ia = [ax_index(A, x) for x in as_list(ax[0])]
+            ib = [ax_index(B, x) for x in as_list(ax[1])]
         for i, j in zip(ia, ib):
             if not A.legs[i].contractible(B.legs[j], env.mods):
                 raise ExpectError('ValueError')
@@ -602,6 +624,7 @@ class OpTensordot:
     def run(env, o):
         npc = _npc()
         ax = o['axes']
+        api(env, 'tensordot', axes='int' if isinstance(ax, int) else ('lists' if isinstance(ax[0], list) else 'single'))
         r = npc.tensordot(env.slots[o['a']].impl, env.slots[o['b']].impl, axes=ax if isinstance(ax, int) else (ax[0], ax[1]))
         return {'new': [r]} if isinstance(r, npc.Array) else {'scalar': r}
 
@@ -627,6 +650,7 @@ class OpOuter:
 
     @staticmethod
     def run(env, o):
+        api(env, 'outer')
         return {'new': [_npc().outer(env.slots[o['a']].impl, env.slots[o['b']].impl)]}
 
 
@@ -673,7 +697,10 @@ class OpInner:
             want = [A.labels[i] if do_conj else lab_conj(A.labels[i]) for i in range(A.rank)]
             if sorted(want) == sorted(x if x is not None else '' for x in B.labels) and all(B.labels[perm[i]] == want[i] for i in range(A.rank)):
                 axes = 'labels'
-        return {'op': 'inner', 'a': a, 'b': b, 'axes': axes, 'do_conj': do_conj}
+        o = {'op': 'inner', 'a': a, 'b': b, 'axes': axes, 'do_conj': do_conj}
+        if ext_p(env, 0.15):
+            o['as_lists'] = env.xr.randint(1, 3)        # documented: lists of Arrays -> sum of the inner products of the pairs
+        return o
 
     @staticmethod
     def ref(env, o, aux):
@@ -694,13 +721,16 @@ class OpInner:
             if not ok:
                 raise ExpectError('ValueError')
         Ad = np.conj(A.dense) if o['do_conj'] else A.dense
-        return {'scalar': complex(np.tensordot(Ad, B.dense, (ia, ib)))}
+        return {'scalar': complex(np.tensordot(Ad, B.dense, (ia, ib))) * o.get('as_lists', 1)}
 
     @staticmethod
     def run(env, o):
         ax = o['axes']
-        return {'scalar': _npc().inner(env.slots[o['a']].impl, env.slots[o['b']].impl,
-                                       axes=ax if isinstance(ax, str) else (ax[0], ax[1]), do_conj=o['do_conj'])}
+        x, y = env.slots[o['a']].impl, env.slots[o['b']].impl
+        api(env, 'inner', axes=ax if isinstance(ax, str) else 'lists', do_conj=o['do_conj'], operands='lists' if o.get('as_lists') else 'arrays')
+        if o.get('as_lists'):
+            x, y = [x] * o['as_lists'], [y] * o['as_lists']
+        return {'scalar': _npc().inner(x, y, axes=ax if isinstance(ax, str) else (ax[0], ax[1]), do_conj=o['do_conj'])}
 
 
 @op('trace', 2.0)
@@ -721,6 +751,13 @@ class OpTrace:
         o = {'op': 'trace', 'a': a, 'leg1': axarg(rng, A, i), 'leg2': axarg(rng, A, j)}
         if malformed:
             o['malformed'] = 'incompatible-legs'
+        elif getattr(env, 'ext', False):
+            d = [(a2, i2, j2) for a2, i2, j2 in cands if (i2, j2) == (0, 1)]
+            if d and env.xr.random() < 0.3:     # default arguments leg1=0, leg2=1
+                o = {'op': 'trace', 'a': d[0][0], 'leg1': 0, 'leg2': 1, 'defaults': True}
+            elif env.xr.random() < 0.05 and not isinstance(o['leg1'], str):
+                o['leg2'] = o['leg1']           # the same leg twice: documented ValueError
+                o['malformed'] = 'same-leg'
         return o
 
     @staticmethod
@@ -738,7 +775,8 @@ class OpTrace:
     @staticmethod
     def run(env, o):
         npc = _npc()
-        r = npc.trace(env.slots[o['a']].impl, o['leg1'], o['leg2'])
+        api(env, 'trace', leg1='default' if o.get('defaults') else o['leg1'], leg2='default' if o.get('defaults') else o['leg2'])
+        r = npc.trace(env.slots[o['a']].impl) if o.get('defaults') else npc.trace(env.slots[o['a']].impl, o['leg1'], o['leg2'])
         return {'new': [r]} if isinstance(r, npc.Array) else {'scalar': r}
 
 
@@ -782,6 +820,7 @@ class OpTranspose:
     @staticmethod
     def run(env, o):
         x = env.slots[o['a']].impl
+        api(env, 'Array.itranspose' if o['inplace'] else 'Array.transpose', axes=o['axes'])
         if o['inplace']:
             x.itranspose(o['axes'])
             return {'inplace': True}
@@ -797,6 +836,8 @@ class OpSwap:
             return None
         A = env.slots[a].ref
         i, j = rng.sample(range(A.rank), 2)
+        if ext_p(env, 0.12):
+            j = i       # the same axis twice: documented "nothing to do"
         return {'op': 'iswapaxes', 'a': a, 'axis1': axarg(rng, A, i), 'axis2': axarg(rng, A, j)}
 
     @staticmethod
@@ -810,6 +851,7 @@ class OpSwap:
 
     @staticmethod
     def run(env, o):
+        api(env, 'Array.iswapaxes', axes='same' if o['axis1'] == o['axis2'] else 'different')
         env.slots[o['a']].impl.iswapaxes(o['axis1'], o['axis2'])
         return {'inplace': True}
 
@@ -821,7 +863,13 @@ class OpConj:
         if malformed:
             return None
         a = pick_slot(rng, env)
-        return {'op': 'conj', 'a': a, 'inplace': rng.random() < 0.4, 'complex_conj': rng.random() < 0.85}
+        o = {'op': 'conj', 'a': a, 'inplace': rng.random() < 0.4, 'complex_conj': rng.random() < 0.85}
+        if ext_p(env, 0.3):     # the same through conj(inplace=True) / with default arguments
+            if o['inplace'] and env.xr.random() < 0.5:
+                o['via'] = 'conj-inplace-kw'
+            elif o['complex_conj']:
+                o['via'] = 'defaults'
+        return o
 
     @staticmethod
     def ref(env, o, aux):
@@ -836,6 +884,14 @@ class OpConj:
     @staticmethod
     def run(env, o):
         x = env.slots[o['a']].impl
+        if o.get('via') == 'conj-inplace-kw':
+            api(env, 'Array.conj', complex_conj=o['complex_conj'], inplace=True)
+            x.conj(o['complex_conj'], inplace=True)
+            return {'inplace': True}
+        if o.get('via') == 'defaults':
+            api(env, 'Array.iconj' if o['inplace'] else 'Array.conj')
+            return {'inplace': True, 'r': x.iconj()} if o['inplace'] else {'new': [x.conj()]}
+        api(env, 'Array.iconj' if o['inplace'] else 'Array.conj', complex_conj=o['complex_conj'], **({} if o['inplace'] else {'inplace': False}))
         if o['inplace']:
             x.iconj(o['complex_conj'])
             return {'inplace': True}
@@ -859,6 +915,7 @@ class OpCConj:
 
     @staticmethod
     def run(env, o):
+        api(env, 'Array.complex_conj')
         return {'new': [env.slots[o['a']].impl.complex_conj()]}
 
 
@@ -933,6 +990,9 @@ class OpAdd:
     def run(env, o):
         x, y = env.slots[o['a']].impl, env.slots[o['b']].impl
         k = o['kind']
+        api(env, {'add': 'Array.__add__', 'sub': 'Array.__sub__', 'iadd': 'Array.__iadd__', 'isub': 'Array.__isub__',
+                  'iadd_prefactor_other': 'Array.iadd_prefactor_other'}.get(k, 'Array.ibinary_blockwise' if k.startswith('i') else 'Array.binary_blockwise'),
+            **({'prefactor': dec_scalar(o['alpha'])} if k == 'iadd_prefactor_other' else {}))
         if k == 'add':
             return {'new': [x + y]}
         if k == 'sub':
@@ -968,6 +1028,8 @@ class OpScale:
         s = rng.choice(SCALARS)
         if kind in ('div', 'idiv'):
             s = rng.choice([0.5, -1, 0.25, 2, -1.0, 1j])
+            if ext_p(env, 0.08):
+                return {'op': 'scale', 'a': a, 'kind': kind, 's': enc_scalar(env.xr.choice([0, 0.0])), 'malformed': 'division-by-zero'}
         return {'op': 'scale', 'a': a, 'kind': kind, 's': enc_scalar(s)}
 
     @staticmethod
@@ -979,6 +1041,8 @@ class OpScale:
         if k == 'neg':
             T.dense = -A.dense
         elif k in ('div', 'idiv'):
+            if s == 0:
+                raise ExpectError('ZeroDivisionError')
             T.dense = A.dense / s
         else:
             T.dense = A.dense * s
@@ -992,6 +1056,8 @@ class OpScale:
         x = env.slots[o['a']].impl
         s = dec_scalar(o['s'])
         k = o['kind']
+        api(env, 'Array.' + {'mul': '__mul__', 'rmul': '__rmul__', 'imul': '__imul__', 'div': '__truediv__', 'idiv': '__itruediv__',
+                             'neg': '__neg__'}.get(k, k), **({} if k == 'neg' else {'scalar': type(s).__name__ + ('=0' if s == 0 else '=1' if s == 1 else '')}))
         if k == 'mul':
             return {'new': [x * s]}
         if k == 'rmul':
@@ -1049,6 +1115,7 @@ class OpScaleAxis:
         x = env.slots[o['a']].impl
         s = dec_vec(o['s'])
         kw = {} if o['axis'] is None else {'axis': o['axis']}
+        api(env, 'Array.iscale_axis' if o['inplace'] else 'Array.scale_axis', axis='default' if o['axis'] is None else o['axis'])
         if o['inplace']:
             x.iscale_axis(s, **kw)
             return {'inplace': True}
@@ -1091,7 +1158,7 @@ def _ref_combine(env, A, groups, new_axes, qconjs, sort=True, bunch=True):
             qc = None if qconjs is None else (qconjs[s] if len(qconjs) > 1 or len(groups) == 1 else qconjs[0])
             if qc is None:
                 qc = sub[0].qconj
-            P = pipe_leg(sub, qc, env.mods, sort, bunch)
+            P = pipe_leg(sub, qc, env.mods, sort[s] if isinstance(sort, list) else sort, bunch[s] if isinstance(bunch, list) else bunch)
             perm.extend(groups[s])
             legs.append(P)
             labels.append(lab_combine([labels_q[k] for k in groups[s]]))
@@ -1108,6 +1175,9 @@ class OpCombine:
     @staticmethod
     def gen(rng, env, malformed=False):
         a = pick_slot(rng, env, lambda s: s.ref.rank >= 1)
+        if ext_p(env, 0.3):     # pipes of pipes (nested labels) more often
+            a2 = pick_slot(rng, env, lambda s: s.ref.rank >= 2 and any(l.sub is not None for l in s.ref.legs))
+            a = a if a2 is None else a2
         A = env.slots[a].ref
         axes = list(range(A.rank))
         rng.shuffle(axes)
@@ -1142,12 +1212,28 @@ class OpCombine:
              'via_pipe': rng.random() < 0.2 and not malformed}
         if malformed:
             o['malformed'] = 'leg-twice'
+        elif getattr(env, 'ext', False):
+            xr = env.xr
+            if not o['via_pipe'] and xr.random() < 0.35:
+                o['via_pipe'] = True
+            if o['via_pipe']:
+                # documented: `pipes` may contain None (pipe made from `qconj`), a pipe conjugated to the legs (used conjugated), and a pipe
+                # made by make_pipe(axes, **kwargs) with the LegPipe options sort / bunch
+                o['pipe_kw'] = [{'sort': xr.random() < 0.6, 'bunch': xr.random() < 0.6} if xr.random() < 0.6 else {} for _ in groups]
+                o['pipe_conj'] = [xr.random() < 0.3 for _ in groups]
+                o['pipe_none'] = [len(groups) > 1 and xr.random() < 0.25 for _ in groups]
         return o
+
+    @staticmethod
+    def pipe_flags(o, name):
+        if not o.get('via_pipe') or 'pipe_kw' not in o:
+            return True
+        return [True if none else bool(kw.get(name, True)) for kw, none in zip(o['pipe_kw'], o['pipe_none'])]
 
     @staticmethod
     def ref(env, o, aux):
         A = env.slots[o['a']].ref
-        T, non = _ref_combine(env, A, o['groups'], o['new_axes'], o['qconj'])
+        T, non = _ref_combine(env, A, o['groups'], o['new_axes'], o['qconj'], OpCombine.pipe_flags(o, 'sort'), OpCombine.pipe_flags(o, 'bunch'))
         res = {'new': [T], 'qtotal_rule': 'same'}
         if any(A.labels[k] is None for k in non):
             res['cond'] = 'unlabeled-noncombined-leg'
@@ -1162,7 +1248,17 @@ class OpCombine:
             pipes = []
             for i, g in enumerate(groups):
                 qci = x.get_leg(g[0]).qconj if qc is None else qc[i]
-                pipes.append(x.make_pipe(g, qconj=qci))
+                if 'pipe_kw' in o and o['pipe_none'][i]:
+                    pipes.append(None)
+                    continue
+                kw = o['pipe_kw'][i] if 'pipe_kw' in o else {}
+                api(env, 'Array.make_pipe', **kw)
+                P = x.make_pipe(g, qconj=qci, **kw)
+                if 'pipe_kw' in o and o['pipe_conj'][i]:
+                    P = P.conj()
+                pipes.append(P)
+        api(env, 'Array.combine_legs', combine_legs='one-group' if o['single'] else 'groups', new_axes=na, qconj=qc,
+            pipes=None if pipes is None else ('with-None' if any(p_ is None for p_ in pipes) else 'conjugated' if any(o.get('pipe_conj', [])) else 'given'))
         if o['single']:
             return {'new': [x.combine_legs(groups[0], new_axes=None if na is None else na[0],
                                            pipes=None if pipes is None else pipes[0], qconj=None if qc is None else qc[0])]}
@@ -1211,17 +1307,24 @@ class OpSplit:
             i = rng.choice([i for i, l in enumerate(A.legs) if l.sub is None])
             return {'op': 'split_legs', 'a': a, 'axes': [i], 'malformed': 'not-a-pipe'}
         a = pick_slot(rng, env, lambda s: any(l.sub is not None for l in s.ref.legs))
+        if ext_p(env, 0.06 if a is not None else 0.3):
+            # nothing to split: documented to return a copy (no LegPipe and axes=None / an empty list of axes)
+            b = pick_slot(rng, env, lambda s: not any(l.sub is not None for l in s.ref.legs))
+            if b is not None and env.xr.random() < 0.5:
+                return {'op': 'split_legs', 'a': b, 'axes': None}
+            return {'op': 'split_legs', 'a': pick_slot(rng, env), 'axes': []}
         if a is None:
             return None
         A = env.slots[a].ref
         pa = [i for i, l in enumerate(A.legs) if l.sub is not None]
         newrank = A.rank + sum(len(A.legs[i].sub) - 1 for i in pa)
+        ex = {'cutoff': env.xr.choice([0.0, 1e-30, 1e-30])} if ext_p(env, 0.3) else {}
         if rng.random() < 0.5 and newrank <= env.maxrank + 1:
-            return {'op': 'split_legs', 'a': a, 'axes': None}
+            return dict({'op': 'split_legs', 'a': a, 'axes': None}, **ex)
         k = rng.randint(1, len(pa))
         sel = rng.sample(pa, k)
         axes = [axarg(rng, A, i) for i in sel]
-        return {'op': 'split_legs', 'a': a, 'axes': axes[0] if len(axes) == 1 and rng.random() < 0.5 else axes}
+        return dict({'op': 'split_legs', 'a': a, 'axes': axes[0] if len(axes) == 1 and rng.random() < 0.5 else axes}, **ex)
 
     @staticmethod
     def ref(env, o, aux):
@@ -1230,6 +1333,10 @@ class OpSplit:
     @staticmethod
     def run(env, o):
         x = env.slots[o['a']].impl
+        api(env, 'Array.split_legs', axes=o['axes'], **({'cutoff': o['cutoff']} if 'cutoff' in o else {}))
+        if 'cutoff' in o:
+            # `cutoff` (blocks with max |entry| <= cutoff count as zero): 1e-30 is below every non-zero entry the programs produce
+            return {'new': [x.split_legs(o['axes'], cutoff=o['cutoff'])]}
         return {'new': [x.split_legs() if o['axes'] is None else x.split_legs(o['axes'])]}
 
 
@@ -1257,6 +1364,7 @@ class OpBlocked:
 
     @staticmethod
     def run(env, o):
+        api(env, 'Array.as_completely_blocked')
         enc, r = env.slots[o['a']].impl.as_completely_blocked()
         return {'new': [r], 'aux': {'enc_axes': [int(e) for e in enc]}}
 
@@ -1280,6 +1388,18 @@ class OpSortLeg:
         o = {'op': 'sort_legcharge', 'a': a, 'sort': sort, 'bunch': bunch}
         if not any(sort if isinstance(sort, list) else [sort]) and not any(bunch if isinstance(bunch, list) else [bunch]):
             o['cond'] = 'nothing-to-sort'
+        if sort is True and bunch is True and ext_p(env, 0.5):
+            o['defaults'] = True
+        if ext_p(env, 0.12) and A.rank and max(A.shape) > 1:
+            # documented: an entry of `sort` may be a 1D array `perm`, a given permutation to apply to that leg
+            sort = list(sort) if isinstance(sort, list) else [sort] * A.rank
+            i = env.xr.choice([k for k in range(A.rank) if A.shape[k] > 1])
+            pm = list(range(A.shape[i]))
+            while pm == sorted(pm):
+                env.xr.shuffle(pm)
+            sort[i] = {'perm': pm, 'as': env.xr.choice(['ndarray', 'list'])}
+            o['sort'], o['cond'] = sort, 'perm-entry'
+            o.pop('defaults', None)
         return o
 
     @staticmethod
@@ -1295,6 +1415,12 @@ class OpSortLeg:
             if sorted(p.tolist()) != list(range(l.n)):
                 raise OracleFail('sort_legcharge: perm[%d]=%s is not a permutation of range(%d)' % (i, p.tolist(), l.n))
             qf = l.qflat()[p]
+            if isinstance(sort[i], dict):
+                if p.tolist() != list(sort[i]['perm']):
+                    raise OracleFail('sort_legcharge(sort=[.., perm, ..]): the permutation returned for leg %d is %s, the given one %s' % (
+                        i, p.tolist(), sort[i]['perm']))
+                legs.append(leg_from_qflat(qf, l.qconj, env.q, bunch=bool(bunch[i])))
+                continue
             if sort[i] and not rows_sorted(qf):
                 raise OracleFail('sort_legcharge(sort=True): leg %d charges %s are not sorted' % (i, qf.tolist()))
             if not sort[i] and p.tolist() != list(range(l.n)):
@@ -1302,11 +1428,18 @@ class OpSortLeg:
             legs.append(leg_from_qflat(qf, l.qconj, env.q, bunch=bool(bunch[i])))
         D = A.dense[np.ix_(*perms)] if A.rank else A.dense
         return {'new': [RTensor(D, legs, A.labels, A.qtotal)], 'alias': True, 'qtotal_rule': 'same',
-                'blocked_axes': [i for i in range(A.rank) if sort[i] and bunch[i]]}
+                'blocked_axes': [i for i in range(A.rank) if sort[i] is True and bunch[i]]}
 
     @staticmethod
     def run(env, o):
-        perm, r = env.slots[o['a']].impl.sort_legcharge(o['sort'], o['bunch'])
+        srt = o['sort']
+        if isinstance(srt, list):
+            srt = [(np.array(e['perm'], dtype=np.intp) if e['as'] == 'ndarray' else list(e['perm'])) if isinstance(e, dict) else e for e in srt]
+        api(env, 'Array.sort_legcharge', sort='perm-entry' if o.get('cond') == 'perm-entry' else o['sort'], bunch=o['bunch'])
+        if o.get('defaults'):
+            perm, r = env.slots[o['a']].impl.sort_legcharge()
+            return {'new': [r], 'aux': {'perms': [[int(x) for x in p] for p in perm]}}
+        perm, r = env.slots[o['a']].impl.sort_legcharge(srt, o['bunch'])
         return {'new': [r], 'aux': {'perms': [[int(x) for x in p] for p in perm]}}
 
 
@@ -1341,6 +1474,7 @@ class OpPermute:
 
     @staticmethod
     def run(env, o):
+        api(env, 'Array.permute')
         return {'new': [env.slots[o['a']].impl.permute(o['perm'], o['axis'])]}
 
 
@@ -1368,6 +1502,8 @@ def dec_inds(inds):
         t = it['t']
         if t == 'int':
             out.append(int(it['v']))
+        elif t == 'npint':
+            out.append(np.int64(it['v']))
         elif t == 'slice':
             out.append(slice(*it['v']))
         elif t == 'mask':
@@ -1381,7 +1517,29 @@ def dec_inds(inds):
     return tuple(out)
 
 
-def gen_index_item(rng, n, allow_int=True, allow_unsorted=True):
+def gen_index_item(rng, n, allow_int=True, allow_unsorted=True, xr=None):
+    it = _gen_index_item(rng, n, allow_int, allow_unsorted)
+    if xr is None or n == 0:
+        return it
+    # program key `ext`: the other documented forms of the same selections (numpy integers, negative entries of index arrays,
+    # negative slice bounds, further steps, a mask that keeps everything)
+    t, u = it['t'], xr.random()
+    if t == 'int' and u < 0.3:
+        return {'t': 'npint', 'v': it['v']}
+    if t in ('idx', 'list') and u < 0.4:
+        return {'t': t, 'v': [i - n if i >= 0 and xr.random() < 0.5 else i for i in it['v']]}
+    if t == 'slice' and it['v'] != [None, None, None] and u < 0.4:
+        a, b, st = it['v']
+        if st in (None, 1, 2) and xr.random() < 0.5:
+            st = xr.choice([3, 2, 1])
+        return {'t': 'slice', 'v': [a - n if a is not None and a > 0 and xr.random() < 0.6 else a, b - n if b is not None and 0 < b < n and xr.random() < 0.6 else b, st]}
+    if t == 'slice' and it['v'] == [None, None, None] and u < 0.25 and n >= 2:
+        return xr.choice([{'t': 'slice', 'v': [None, None, -1]}, {'t': 'slice', 'v': [None, None, -2]} if allow_unsorted else {'t': 'slice', 'v': [None, None, 2]},
+                          {'t': 'mask', 'v': [True] * n}, {'t': 'slice', 'v': [-n, n + 3, None]}]) if allow_unsorted else {'t': 'mask', 'v': [True] * n}
+    return it
+
+
+def _gen_index_item(rng, n, allow_int=True, allow_unsorted=True):
     r = rng.random()
     if allow_int and r < 0.3 and n > 0:
         i = rng.randrange(n)
@@ -1407,6 +1565,10 @@ def gen_index_item(rng, n, allow_int=True, allow_unsorted=True):
     return {'t': rng.choice(['idx', 'list']) if idx else 'idx', 'v': idx}
 
 
+def neg_index_array(inds):
+    return any(it['t'] in ('idx', 'list') and any(v < 0 for v in it['v']) for it in inds)
+
+
 def resolve_inds(A, inds):
     """documented indexing: returns per axis an int or a list of flat indices"""
     items = list(inds)
@@ -1426,7 +1588,7 @@ def resolve_inds(A, inds):
     sel = []
     for it, n in zip(out, A.shape):
         t = it['t']
-        if t == 'int':
+        if t in ('int', 'npint'):
             i = int(it['v'])
             if i < 0:
                 i += n
@@ -1486,9 +1648,22 @@ class OpGetitem:
             if any(A.shape[x] == 0 for x in axes) or k == A.rank:
                 return None
             idx = [rng.randrange(A.shape[x]) for x in axes]
+            if ext_p(env, 0.06):
+                return {'op': 'getitem', 'a': a, 'take_slice': True, 'indices': [], 'axes': []}     # no axis: documented to return a copy
+            if ext_p(env, 0.3):
+                idx = [i - A.shape[x] if env.xr.random() < 0.5 else i for i, x in zip(idx, axes)]   # negative indices count from the end
             return {'op': 'getitem', 'a': a, 'take_slice': True, 'indices': idx if k > 1 or rng.random() < 0.5 else idx[0],
                     'axes': [axarg(rng, A, x) for x in axes] if k > 1 or rng.random() < 0.5 else axarg(rng, A, axes[0])}
-        inds = [gen_index_item(rng, n) for n in A.shape]
+        xr = env.xr if getattr(env, 'ext', False) else None
+        inds = [gen_index_item(rng, n, xr=xr) for n in A.shape]
+        if xr is not None and not malformed and A.dense.size and xr.random() < 0.12:
+            # all indices integers: an entry of a stored block / of a block that is not stored / at a position the charge rule forbids
+            al = allowed_mask(A, env.mods)
+            cls = [c for c in (np.argwhere(al & (A.dense != 0)), np.argwhere(al & (A.dense == 0)), np.argwhere(~al)) if len(c)]
+            c = xr.choice(cls)
+            pos = [int(v) for v in c[xr.randrange(len(c))]]
+            return {'op': 'getitem', 'a': a, 'take_slice': False,
+                    'inds': [{'t': xr.choice(['int', 'npint']), 'v': v - n if xr.random() < 0.3 else v} for v, n in zip(pos, A.shape)]}
         if rng.random() < 0.3:
             cut = rng.randint(0, len(inds))
             if rng.random() < 0.5:
@@ -1497,6 +1672,8 @@ class OpGetitem:
                 cut2 = rng.randint(cut, len(inds))
                 inds = inds[:cut] + [{'t': 'ellipsis'}] + inds[cut2:]
         o = {'op': 'getitem', 'a': a, 'take_slice': False, 'inds': inds}
+        if neg_index_array(inds):
+            o['cond'] = 'negative-index-array'
         if malformed:
             m = rng.choice(['too-many', 'out-of-range'])
             if m == 'too-many':
@@ -1534,9 +1711,14 @@ class OpGetitem:
         npc = _npc()
         x = env.slots[o['a']].impl
         if o['take_slice']:
+            api(env, 'Array.take_slice', axes='none' if o['axes'] == [] else ('list' if isinstance(o['axes'], list) else 'single'))
             r = x.take_slice(o['indices'], o['axes'])
         else:
             inds = dec_inds(o['inds'])
+            api(env, 'Array.__getitem__', **{'index_' + t: True for t in {it['t'] + ('-negative' if it['t'] in ('idx', 'list', 'int', 'npint') and np.any(np.asarray(it['v']) < 0)
+                                                                                   else '-step' if it['t'] == 'slice' and it['v'][2] not in (None, 1) else '')
+                                                                        for it in o['inds']} | ({'all-int'} if len(o['inds']) == x.rank and all(it['t'] in ('int', 'npint') for it in o['inds']) else set()) |
+                                             ({'truncated'} if len(o['inds']) < x.rank and not any(it['t'] == 'ellipsis' for it in o['inds']) else set())})
             r = x[inds if len(inds) != 1 else inds[0]]
         return {'new': [r]} if isinstance(r, npc.Array) else {'scalar': r}
 
@@ -1565,9 +1747,17 @@ class OpSetitem:
             return o
         if malformed:
             return None
-        inds = [gen_index_item(rng, n, allow_unsorted=rng.random() < 0.5) for n in A.shape]
-        if all(it['t'] == 'int' for it in inds):
+        xr = env.xr if getattr(env, 'ext', False) else None
+        inds = [gen_index_item(rng, n, allow_unsorted=rng.random() < 0.5, xr=xr) for n in A.shape]
+        if all(it['t'] in ('int', 'npint') for it in inds):
             inds[0] = {'t': 'slice', 'v': [None, None, None]}
+        if xr is not None and xr.random() < 0.3:
+            # trailing full slices may be left out / replaced by an Ellipsis (``self[i]`` is ``self[i, ...]``)
+            k = len(inds)
+            while k > 1 and inds[k - 1] == {'t': 'slice', 'v': [None, None, None]} and xr.random() < 0.7:
+                k -= 1
+            if k < len(inds):
+                inds = inds[:k] + ([{'t': 'ellipsis'}] if xr.random() < 0.5 else [])
         try:
             sel = resolve_inds(A, inds)
         except ExpectError:
@@ -1582,6 +1772,8 @@ class OpSetitem:
         o = {'op': 'setitem', 'a': a, 'mode': rng.choice(['ndarray', 'npc']), 'inds': inds, 'values': enc_vec(vals)}
         if any(isinstance(x, list) and x != sorted(x) for x in sel):
             o['cond'] = 'unsorted-index'
+        if neg_index_array(inds):
+            o['cond'] = 'negative-index-array'
         r2 = getattr(env, 'sparse_values', None)
         if r2 is not None:
             OpSetitem.sparsify(r2, env, A, o, vals)
@@ -1677,9 +1869,11 @@ class OpSetitem:
         if o['mode'] == 'scalar':
             v = dec_scalar(o['value'])
             pos = tuple(o['pos'])
+            api(env, 'Array.__setitem__', value='scalar')
             x[pos if len(pos) > 1 else pos[0]] = v
             return {'inplace': True}
         inds = dec_inds(o['inds'])
+        api(env, 'Array.__setitem__', value=o['mode'], **{'index_' + it['t']: True for it in o['inds']})
         inds = inds if len(inds) != 1 else inds[0]
         vals = dec_vec(o['values'])
         if x.dtype.kind != 'c':
@@ -1765,6 +1959,7 @@ class OpProject:
         import warnings
         with warnings.catch_warnings():
             warnings.simplefilter('ignore')
+            api(env, 'Array.iproject', mask='+'.join(sorted({m['t'] for m in o['masks']})), axes='single' if o['single'] else 'list')
             if o['single']:
                 x.iproject(masks[0], o['axes'][0])
             else:
@@ -1819,6 +2014,7 @@ class OpSqueeze:
     def run(env, o):
         npc = _npc()
         x = env.slots[o['a']].impl
+        api(env, 'Array.squeeze', axes=o['axes'], result='scalar' if all(n == 1 for n in x.shape) and o['axes'] is None else 'array')
         r = x.squeeze() if o['axes'] is None else x.squeeze(o['axes'])
         return {'new': [r]} if isinstance(r, npc.Array) else {'scalar': r}
 
@@ -1848,6 +2044,8 @@ class OpAddLeg:
                 return None
             o['label'] = rng.choice(labs)
             o['malformed'] = 'label-collision'
+        elif ext_p(env, 0.15):
+            o.update(axis=0, label=None, defaults=True)     # default arguments axis=0, label=None
         return o
 
     @staticmethod
@@ -1873,6 +2071,10 @@ class OpAddLeg:
     @staticmethod
     def run(env, o):
         x = env.slots[o['a']].impl
+        if o.get('defaults'):
+            api(env, 'Array.add_leg')
+            return {'new': [x.add_leg(mk_leg(env, o['leg']), o['i'])]}
+        api(env, 'Array.add_leg', axis=o['axis'], label=o['label'])
         return {'new': [x.add_leg(mk_leg(env, o['leg']), o['i'], o['axis'], o['label'])]}
 
 
@@ -1894,6 +2096,8 @@ class OpAddTrivial:
                 return None
             o['label'] = rng.choice(labs)
             o['malformed'] = 'label-collision'
+        elif ext_p(env, 0.15):
+            o.update(axis=0, label=None, qconj=1, defaults=True)     # default arguments axis=0, label=None, qconj=1
         return o
 
     @staticmethod
@@ -1910,6 +2114,10 @@ class OpAddTrivial:
 
     @staticmethod
     def run(env, o):
+        if o.get('defaults'):
+            api(env, 'Array.add_trivial_leg')
+            return {'new': [env.slots[o['a']].impl.add_trivial_leg()]}
+        api(env, 'Array.add_trivial_leg', axis=o['axis'], label=o['label'], qconj=o['qconj'])
         return {'new': [env.slots[o['a']].impl.add_trivial_leg(o['axis'], o['label'], o['qconj'])]}
 
 
@@ -1955,6 +2163,7 @@ class OpExtend:
 
     @staticmethod
     def run(env, o):
+        api(env, 'Array.extend', extra='int' if isinstance(o['extra'], int) else 'LegCharge')
         ex = o['extra'] if isinstance(o['extra'], int) else mk_leg(env, o['extra'])
         return {'new': [env.slots[o['a']].impl.extend(o['axis'], ex)]}
 
@@ -1992,6 +2201,7 @@ class OpGauge:
 
     @staticmethod
     def run(env, o):
+        api(env, 'Array.gauge_total_charge', newqtotal=o['newqtotal'], new_qconj=o['new_qconj'])
         return {'new': [env.slots[o['a']].impl.gauge_total_charge(o['axis'], o['newqtotal'], o['new_qconj'])]}
 
 
@@ -2011,6 +2221,19 @@ class OpStorage:
             o['dtype'] = rng.choice(['complex128', 'float64', None])
             if o['dtype'] is None and not np.any(env.slots[a].ref.dense != 0):
                 o['dtype'] = 'complex128'      # dtype=None is defined through the stored blocks only
+            if ext_p(env, 0.2) and small(env.slots[a]):
+                o['dtype'] = 'int64'
+        elif ext_p(env, 0.45):
+            A = env.slots[a].ref
+            k2 = env.xr.choice(['ipurge_zeros_cut', 'ipurge_zeros_cut', 'pickle', 'deepcopy', 'copy_default'])
+            o = {'op': 'storage', 'a': a, 'kind': k2}
+            if k2 == 'ipurge_zeros_cut':
+                # blocks with norm <= cutoff are removed; norm_order: any `ord` of np.linalg.norm (for rank > 2 numpy only accepts None);
+                # cutoffs k + 1/2 cannot coincide with a 1-, 2- or inf-norm of integer blocks
+                o['norm_order'] = env.xr.choice([None, 'inf', 1, 'fro', 2] if A.rank == 2 else [None, 'inf', 1, 2] if A.rank == 1 else [None])
+                o['cutoff'] = env.xr.choice([0.0, 0.5, 1.5, 2.5, 4.5])
+                if not is_gauss_int(A.dense) or getattr(A, 'kind', 'f') == 'c':
+                    o['cutoff'] = 0.0
         return o
 
     @staticmethod
@@ -2020,20 +2243,48 @@ class OpStorage:
         if k in ('ipurge_zeros', 'isort_qdata'):
             return {'inplace': o['a'], 'qtotal_rule': 'same'}
         T = A.copy()
+        if k == 'ipurge_zeros_cut':
+            od = {'inf': np.inf}.get(o['norm_order'], o['norm_order'])
+            for c in block_combos(A.legs):
+                sl = tuple(slice(int(l.slices[b]), int(l.slices[b + 1])) for l, b in zip(A.legs, c))
+                blk = A.dense[sl]
+                if blk.size and np.any(blk != 0) and not np.linalg.norm(blk, ord=od) > o['cutoff']:
+                    T.dense[sl] = 0
+            env.slots[o['a']].ref = T
+            return {'inplace': o['a'], 'qtotal_rule': 'same'}
         if k == 'zeros_like':
             T.dense = np.zeros_like(A.dense)
         if k.startswith('astype') and o['dtype'] == 'float64':
             if getattr(A, 'kind', 'f') == 'c':
                 T.dense = T.dense.real.astype(complex)
+        if k.startswith('astype') and o['dtype'] == 'int64':
+            T.dense = np.trunc(T.dense.real).astype(complex)        # numpy: float -> int truncates towards zero, the imaginary part is discarded
         return {'new': [T], 'alias': k in ('copy_shallow', 'astype_nocopy', 'zeros_like'), 'qtotal_rule': 'same'}
 
     @staticmethod
     def run(env, o):
         x = env.slots[o['a']].impl
         k = o['kind']
+        api(env, 'Array.' + {'copy_deep': 'copy', 'copy_shallow': 'copy', 'copy_default': 'copy', 'astype_nocopy': 'astype', 'ipurge_zeros_cut': 'ipurge_zeros',
+                             'pickle': '__getstate__', 'deepcopy': '__getstate__'}.get(k, k),
+            **({'deep': k != 'copy_shallow'} if k in ('copy_deep', 'copy_shallow') else {'dtype': o['dtype'], 'copy': k == 'astype'} if k.startswith('astype')
+               else {'cutoff': o['cutoff'], 'norm_order': o['norm_order']} if k == 'ipurge_zeros_cut' else {}))
         if k == 'ipurge_zeros':
             x.ipurge_zeros()
             return {'inplace': True}
+        if k == 'ipurge_zeros_cut':
+            x.ipurge_zeros(o['cutoff'], {'inf': np.inf}.get(o['norm_order'], o['norm_order']))
+            return {'inplace': True}
+        if k == 'pickle':
+            import pickle
+            api(env, 'Array.__setstate__')
+            return {'new': [pickle.loads(pickle.dumps(x))]}
+        if k == 'deepcopy':
+            import copy
+            api(env, 'Array.__setstate__')
+            return {'new': [copy.deepcopy(x)]}
+        if k == 'copy_default':
+            return {'new': [x.copy()]}
         if k == 'isort_qdata':
             x.isort_qdata()
             return {'inplace': True}
@@ -2136,6 +2387,7 @@ class OpLabels:
     def run(env, o):
         x = env.slots[o['a']].impl
         k = o['kind']
+        api(env, 'Array.' + k, **({'old_labels': o['old']} if k == 'idrop_labels' else {}))
         if k in ('replace_label', 'replace_labels'):
             return {'new': [getattr(x, k)(o['old'], o['new'])]}
         if k in ('ireplace_label', 'ireplace_labels'):
@@ -2158,11 +2410,19 @@ class OpCharges:
         k = rng.randrange(env.q)
         if rng.random() < 0.5:
             ch = None if rng.random() < 0.3 else (env.names[k] if env.names[k] and rng.random() < 0.5 else k)
-            return {'op': 'charges', 'a': a, 'kind': 'drop_charge', 'charge': ch}
+            o = {'op': 'charges', 'a': a, 'kind': 'drop_charge', 'charge': ch}
+            if ext_p(env, 0.3):
+                o['chinfo'] = True
+            return o
         m = env.mods[k]
         cands = [2, 3, 4, 5, 1] if m == 1 else [d for d in range(2, m + 1) if m % d == 0]
-        return {'op': 'charges', 'a': a, 'kind': 'change_charge', 'charge': env.names[k] if env.names[k] and rng.random() < 0.5 else k,
-                'new_qmod': rng.choice(cands)}
+        o = {'op': 'charges', 'a': a, 'kind': 'change_charge', 'charge': env.names[k] if env.names[k] and rng.random() < 0.5 else k,
+             'new_qmod': rng.choice(cands)}
+        if ext_p(env, 0.3):
+            o['new_name'] = env.xr.choice(['', 'Q', 'par'])
+        if ext_p(env, 0.3):
+            o['chinfo'] = True
+        return o
 
     @staticmethod
     def ref(env, o, aux):
@@ -2185,13 +2445,28 @@ class OpCharges:
             mods[k] = o['new_qmod']
             legs = [RLeg(l.slices, mv(mods, l.charges), l.qconj, env.q) for l in A.legs]
             T = RTensor(A.dense, legs, A.labels, mv(mods, A.qtotal))
-        return {'new': [T], 'foreign_mods': mods, 'qtotal_rule': 'reduced'}
+        res = {'new': [T], 'foreign_mods': mods, 'qtotal_rule': 'reduced'}
+        if getattr(env, 'ext', False):      # names of the charges of the result (documented; used by the continuation on the result)
+            if o['kind'] == 'drop_charge':
+                res['foreign_names'] = [env.names[j] for j in keep]
+            else:
+                res['foreign_names'] = [o.get('new_name', '') if j == k else n for j, n in enumerate(env.names)]
+        return res
 
     @staticmethod
     def run(env, o):
         x = env.slots[o['a']].impl
+        npc = _npc()
         if o['kind'] == 'drop_charge':
+            api(env, 'Array.drop_charge', charge=o['charge'], chinfo='given' if o.get('chinfo') else None)
+            if o.get('chinfo'):     # documented: the ChargeInfo with `charge` dropped may be given
+                return {'new': [x.drop_charge(o['charge'], npc.ChargeInfo.drop(x.chinfo, o['charge']))]}
             return {'new': [x.drop_charge(o['charge'])]}
+        api(env, 'Array.change_charge', new_name=o.get('new_name', ''), chinfo='given' if o.get('chinfo') else None)
+        if o.get('chinfo'):
+            return {'new': [x.change_charge(o['charge'], o['new_qmod'], o.get('new_name', ''), npc.ChargeInfo.change(x.chinfo, o['charge'], o['new_qmod'], o.get('new_name', '')))]}
+        if 'new_name' in o:
+            return {'new': [x.change_charge(o['charge'], o['new_qmod'], o['new_name'])]}
         return {'new': [x.change_charge(o['charge'], o['new_qmod'])]}
 
 
@@ -2201,7 +2476,21 @@ class OpNorm:
     def gen(rng, env, malformed=False):
         if malformed:
             return None
-        return {'op': 'norm', 'a': pick_slot(rng, env), 'ord': rng.choice([None, None, 'inf', 0, 1, 2])}
+        o = {'op': 'norm', 'a': pick_slot(rng, env), 'ord': rng.choice([None, None, 'inf', 0, 1, 2])}
+        if ext_p(env, 0.6):
+            # the documented table of `ord` (None/'fro', inf, -inf, 0, other), the method Array.norm, convert_to_float, ndarray / list arguments
+            o['ord'] = env.xr.choice([None, 'fro', 'inf', '-inf', 0, 1, 2, 3, 0.5, -1])
+            o['via'] = env.xr.choice(['function', 'method', 'method', 'ndarray', 'list'])
+            o['convert_to_float'] = env.xr.random() < 0.7
+            if o['ord'] in ('fro',):
+                o['cond'] = 'ord-fro'
+            if o['ord'] in ('-inf', -1) and o['via'] != 'ndarray':
+                A = env.slots[o['a']].ref
+                o['cond'] = 'negative-ord+no-zero-entry' if A.dense.size and np.all(A.dense != 0) else 'negative-ord'
+            if o['via'] == 'list':
+                o['ord'] = None
+                o.pop('cond', None)
+        return o
 
     @staticmethod
     def ref(env, o, aux):
@@ -2212,15 +2501,35 @@ class OpNorm:
             r = float(np.count_nonzero(v))
         elif od == 'inf':
             r = float(np.max(np.abs(v))) if v.size else 0.0
+        elif od == '-inf':
+            r = float(np.min(np.abs(v))) if v.size else 0.0
+        elif od == 'fro':
+            r = float(np.linalg.norm(v))
         else:
-            r = float(np.linalg.norm(v, od))
+            import warnings
+            with warnings.catch_warnings():
+                warnings.simplefilter('ignore')
+                r = float(np.linalg.norm(v, od))
+        if o.get('via') == 'list':
+            r = float(np.sqrt(2.0) * r)     # documented for a list: the 2-norm of the norms of its entries
         return {'scalar': complex(r), 'approx': True}
 
     @staticmethod
     def run(env, o):
         npc = _npc()
-        od = np.inf if o['ord'] == 'inf' else o['ord']
-        return {'scalar': npc.norm(env.slots[o['a']].impl, od)}
+        od = {'inf': np.inf, '-inf': -np.inf}.get(o['ord'], o['ord'])
+        x = env.slots[o['a']].impl
+        via = o.get('via')
+        api(env, 'Array.norm' if via == 'method' else 'norm', ord=str(o['ord']), **({} if via is None else {'convert_to_float': o['convert_to_float'], 'a': via}))
+        if via is None:
+            return {'scalar': npc.norm(x, od)}
+        if via == 'method':
+            return {'scalar': x.norm(od, o['convert_to_float'])}
+        if via == 'ndarray':
+            return {'scalar': npc.norm(x.to_ndarray(), od, o['convert_to_float'])}
+        if via == 'list':
+            return {'scalar': npc.norm([x, x])}
+        return {'scalar': npc.norm(x, od, o['convert_to_float'])}
 
 
 # ---- constructors -------------------------------------------------------------------------------
@@ -2239,12 +2548,17 @@ class OpConstruct:
             A = env.slots[a].ref
             i = rng.choice([i for i, l in enumerate(A.legs) if l.n <= 8])
             labs = rng.choice([None, ['x', 'x*'], ['p', None]])
+            if A.legs[0].n <= 8 and ext_p(env, 0.3):
+                return {'op': 'construct', 'kind': kind, 'a': a, 'axis': 0, 'labels': None, 'defaults': True}   # default arguments axis=0, labels=None
             return {'op': 'construct', 'kind': kind, 'a': a, 'axis': axarg(rng, A, i), 'labels': labs}
         if kind == 'diag':
             l = rng.choice(env.pool)
             s = rand_values(rng, (l.n,), rng.random() < 0.3)
-            return {'op': 'construct', 'kind': kind, 'leg': l.spec(), 's': enc_vec(s) if rng.random() < 0.7 else enc_scalar(rng.choice([2.0, 1, 1j])),
-                    'labels': rng.choice([None, ['a', 'b']])}
+            o = {'op': 'construct', 'kind': kind, 'leg': l.spec(), 's': enc_vec(s) if rng.random() < 0.7 else enc_scalar(rng.choice([2.0, 1, 1j])),
+                 'labels': rng.choice([None, ['a', 'b']])}
+            if ext_p(env, 0.4):
+                o['dtype'] = env.xr.choice(['complex128', 'float64']) if not np.iscomplexobj(s) and (o['s'].get('t') != 'complex') else 'complex128'
+            return o
         r = rng.randint(1, min(3, env.maxrank))
         legs = [rng.choice(env.pool) for _ in range(r)]
         legs = [l.conj() if rng.random() < 0.5 else l for l in legs]
@@ -2255,6 +2569,9 @@ class OpConstruct:
         labs = rng.sample(LABEL_POOL, r) if rng.random() < 0.6 else None
         o = {'op': 'construct', 'kind': kind, 'legs': [l.spec() for l in legs], 'qtotal': [int(x) for x in qt], 'labels': labs,
              'dtype': rng.choice(['float64', 'complex128', 'int64'])}
+        if kind in ('zeros', 'ones') and ext_p(env, 0.3):
+            # default arguments dtype=float64, qtotal=None (charge 0), labels=None
+            o.update(dtype='float64', qtotal=[0] * env.q, labels=None, defaults=True)
         if kind == 'from_ndarray':
             T.qtotal = np.array(qt, dtype=QT)
             o['values'] = enc_vec(rand_values(rng, T.shape, o['dtype'] == 'complex128') * allowed_mask(T, env.mods))
@@ -2284,11 +2601,21 @@ class OpConstruct:
         npc = _npc()
         k = o['kind']
         if k == 'eye_like':
+            if o.get('defaults'):
+                api(env, 'eye_like')
+                return {'new': [npc.eye_like(env.slots[o['a']].impl)]}
+            api(env, 'eye_like', axis=o['axis'], labels=o['labels'])
             return {'new': [npc.eye_like(env.slots[o['a']].impl, o['axis'], o['labels'])]}
         if k == 'diag':
             s = dec_vec(o['s']) if 'shape' in o['s'] else dec_scalar(o['s'])
-            return {'new': [npc.diag(s, mk_leg(env, o['leg']), labels=o['labels'])]}
+            api(env, 'diag', s='scalar' if 'shape' not in o['s'] else 'array', dtype=o.get('dtype'), labels=o['labels'])
+            return {'new': [npc.diag(s, mk_leg(env, o['leg']), o.get('dtype'), labels=o['labels'])]}
         legs = [mk_leg(env, sp) for sp in o['legs']]
+        if k in ('zeros', 'ones') and o.get('defaults'):
+            api(env, k)
+            return {'new': [getattr(npc, k)(legs)]}
+        if k in ('zeros', 'ones', 'from_ndarray'):
+            api(env, k if k != 'from_ndarray' else 'Array.from_ndarray', dtype=o['dtype'], qtotal=o['qtotal'], labels=o['labels'])
         if k == 'zeros':
             return {'new': [npc.zeros(legs, o['dtype'], o['qtotal'], o['labels'])]}
         if k == 'ones':
@@ -2364,6 +2691,8 @@ class OpConcat:
         o = {'op': 'concatenate', 'arrays': arrs, 'axis': axarg(rng, A, i), 'copy': rng.random() < 0.7}
         if len(set(arrs)) != len(arrs):
             o['copy'] = True        # copy=False with a repeated operand makes two blocks of the result one ndarray (unspecified aliasing)
+        if i == 0 and not malformed and ext_p(env, 0.4):
+            o.update(axis=0, copy=True, defaults=True)      # default arguments axis=0, copy=True
         if malformed:
             o['malformed'] = 'incompatible-operands'
         return o
@@ -2376,6 +2705,10 @@ class OpConcat:
 
     @staticmethod
     def run(env, o):
+        if o.get('defaults'):
+            api(env, 'concatenate', arrays=len(o['arrays']))
+            return {'new': [_npc().concatenate([env.slots[b].impl for b in o['arrays']])]}
+        api(env, 'concatenate', arrays=len(o['arrays']), axis=o['axis'], copy=o['copy'])
         return {'new': [_npc().concatenate([env.slots[b].impl for b in o['arrays']], o['axis'], o['copy'])]}
 
 
@@ -2400,13 +2733,21 @@ class OpGridConcat:
         for c in range(n1):
             if all(grid[r][c] is None for r in range(n0)):
                 grid[rng.randrange(n0)][c] = a
-        return {'op': 'grid_concat', 'grid': grid, 'axes': [i, j], 'a': a}
+        o = {'op': 'grid_concat', 'grid': grid, 'axes': [i, j], 'a': a}
+        if getattr(env, 'ext', False):
+            used = [g for row in grid for g in row if g is not None]
+            if len(set(used)) == len(used) and env.xr.random() < 0.5:
+                o['copy'] = False       # (a repeated entry with copy=False would make two blocks of the result one ndarray)
+            if env.xr.random() < 0.4 and all(env.slots[g].ref.labels == A.labels for g in used):
+                o['axes'] = [axarg(env.xr, A, i), axarg(env.xr, A, j)]      # documented: `axes` are leg labels or indices
+        return o
 
     @staticmethod
     def ref(env, o, aux):
         grid = o['grid']
-        i, j = o['axes']
         A = env.slots[o['a']].ref
+        first = next(env.slots[g].ref for row in grid for g in row if g is not None)
+        i, j = [ax_index(first if isinstance(x, str) else A, x) for x in o['axes']]
         rows = []
         for row in grid:
             Ts = []
@@ -2419,13 +2760,19 @@ class OpGridConcat:
                     Ts.append(env.slots[g].ref)
             rows.append(_ref_concat(env, Ts, j))
         R = _ref_concat(env, rows, i)
-        first = next(env.slots[g].ref for row in grid for g in row if g is not None)
         R.labels = list(first.labels) if any(g is None for row in grid for g in row) else list(env.slots[grid[0][0]].ref.labels)
-        return {'new': [R], 'qtotal_rule': 'same'}
+        res = {'new': [R], 'qtotal_rule': 'same'}
+        if o.get('copy') is False:
+            res.update(alias=True, alias_of=sorted({g for row in grid for g in row if g is not None}))
+        return res
 
     @staticmethod
     def run(env, o):
         grid = [[None if g is None else env.slots[g].impl for g in row] for row in o['grid']]
+        api(env, 'grid_concat', grid='2D' + ('+None' if any(g is None for row in grid for g in row) else ''), axes='labels' if any(isinstance(x, str) for x in o['axes']) else 'int',
+            **({'copy': False} if o.get('copy') is False else {}))
+        if o.get('copy') is False:
+            return {'new': [_npc().grid_concat(grid, o['axes'], copy=False)]}
         return {'new': [_npc().grid_concat(grid, o['axes'])]}
 
 
@@ -2464,13 +2811,50 @@ class OpGridOuter:
         glabels = None if rng.random() < 0.5 else [fresh_label(rng, A.labels + ['w']) if d else 'w' for d in range(len(shape))]
         if glabels is not None and (None in glabels or len(set(glabels)) != len(glabels) or 'w' in A.labels):
             glabels = None
-        return {'op': 'grid_outer', 'grid': grid, 'grid_legs': legs, 'grid_labels': glabels, 'a': a, 'two': two}
+        o = {'op': 'grid_outer', 'grid': grid, 'grid_legs': legs, 'grid_labels': glabels, 'a': a, 'two': two}
+        if getattr(env, 'ext', False):
+            xr = env.xr
+            if xr.random() < 0.4:
+                # detect_grid_outer_legcharge: one grid leg is derived from the entries for a desired total charge (default 0)
+                d = xr.randrange(len(shape))
+                full = all(any(v is not None for c, v in filled.items() if c[d] == x) for x in range(shape[d]))
+                if full or xr.random() < 0.2:
+                    o['detect_axis'] = d
+                    o['detect_qtotal'] = None if xr.random() < 0.4 else [c + (xr.choice([0, m]) if m != 1 else 0) for c, m in zip(rand_charge(xr, env.mods), env.mods)]
+                    o['detect_qconj'] = xr.choice([None, 1, -1])
+            if xr.random() < 0.4:
+                try:        # the documented argument `qtotal` (instead of deriving it from the first entry)
+                    qt = OpGridOuter.ref(env, o, None)['new'][0].qtotal
+                    o['qtotal_arg'] = [int(c) + (xr.choice([0, m]) if m != 1 else 0) for c, m in zip(qt, env.mods)]
+                except ExpectError:
+                    pass
+        return o
 
     @staticmethod
     def ref(env, o, aux):
         A = env.slots[o['a']].ref
         legs = [leg_from_spec(sp, env.q) for sp in o['grid_legs']]
         shape = [l.n for l in legs]
+        if 'detect_axis' in o:
+            d = o['detect_axis']
+            Q = mv(env.mods, np.zeros(env.q, dtype=QT) if o['detect_qtotal'] is None else np.array(o['detect_qtotal'], dtype=QT).reshape(env.q))
+            qc = 1 if o['detect_qconj'] is None else o['detect_qconj']
+            qf = [None] * shape[d]
+            for idx in itertools.product(*[range(n) for n in shape]):
+                g = (o['grid'][idx[0]][idx[1]] if o['two'] else o['grid'][idx[0]])
+                if g is None:
+                    continue
+                need = Q - env.slots[g].ref.qtotal
+                for k, (i, l) in enumerate(zip(idx, legs)):
+                    if k != d:
+                        need = need - l.qflat()[i] * l.qconj
+                need = mv(env.mods, qc * need)
+                if qf[idx[d]] is not None and not np.array_equal(qf[idx[d]], need):
+                    raise ExpectError('ValueError')
+                qf[idx[d]] = need
+            if any(x is None for x in qf):
+                raise ExpectError('ValueError')
+            legs[d] = leg_from_qflat(np.array(qf, dtype=QT).reshape(shape[d], env.q), qc, env.q, bunch=False)
         grid = np.empty(shape, dtype=object)
         if o['two']:
             for x in range(shape[0]):
@@ -2504,7 +2888,17 @@ class OpGridOuter:
             grid = [[None if g is None else env.slots[g].impl for g in row] for row in o['grid']]
         else:
             grid = [None if g is None else env.slots[g].impl for g in o['grid']]
-        return {'new': [_npc().grid_outer(grid, [mk_leg(env, sp) for sp in o['grid_legs']], grid_labels=o['grid_labels'])]}
+        npc = _npc()
+        legs = [mk_leg(env, sp) for sp in o['grid_legs']]
+        if 'detect_axis' in o:
+            legs[o['detect_axis']] = None
+            kw = {} if o['detect_qconj'] is None else {'qconj': o['detect_qconj']}
+            api(env, 'detect_grid_outer_legcharge', qtotal=o['detect_qtotal'], **kw)
+            legs = npc.detect_grid_outer_legcharge(grid, legs, o['detect_qtotal'], **kw)
+        api(env, 'grid_outer', qtotal=o.get('qtotal_arg'), grid_labels=o['grid_labels'], grid='2D' if o['two'] else '1D')
+        if 'qtotal_arg' in o:
+            return {'new': [npc.grid_outer(grid, legs, o['qtotal_arg'], o['grid_labels'])]}
+        return {'new': [npc.grid_outer(grid, legs, grid_labels=o['grid_labels'])]}
 
 
 # =========================================================================================
@@ -2837,6 +3231,8 @@ def chain_binary(rng, env, xi, pi, pd):
         x_first = rng.random() < 0.5
         if order == list(range(X.rank)) and rng.random() < 0.7:
             axes = 'range'
+        elif None not in X.labels and ext_p(env, 0.6):
+            axes = 'labels'     # documented: same / conjugated labels up to a transposition, which is reverted
         else:
             js = list(range(X.rank))
             rng.shuffle(js)
@@ -2886,6 +3282,15 @@ class ProgramRunner:
         #  p_missing:     choices for the probability that an allowed block of an initial tensor is not stored (default: see OpInit.gen_from)
         #  op_weights:    see gen_step
         self.env.p_missing = prog.get('p_missing')
+        #  ext:           (C01 coverage audit) the operations of harness/c01_ext.py and the wider option spaces marked `ext_p` / `env.ext` in this
+        #                 file take part; continuation on results over another ChargeInfo; second accessors compared; coverage statistics `api:` / `opt:`
+        self.ext = bool(prog.get('ext', False))
+        if self.ext:
+            import c01_ext          # registers its operations in OPS (attribute ext = True)
+            self.x = c01_ext
+            self.env.ext = True
+            self.env.xr = random.Random(prog['seed'] ^ 0x1f123bb5)
+            self.env.api_hook = self.api_stat
         npc = _npc()
         self.env.chinfo = npc.ChargeInfo(prog['mods'], prog['names'])
         self.env.pool = [leg_from_spec(sp, self.env.q) for sp in prog['pool']]
@@ -2937,6 +3342,14 @@ class ProgramRunner:
             opname, parts = 'iadd_prefactor_other', ['same-operand', 'complex-prefactor', 'cy']
         if [c for c in parts if c not in struct]:
             parts = [c for c in parts if c not in struct]       # an operation-specific condition takes precedence
+        if opname in ('getitem', 'setitem') and 'negative-index-array' in parts and (raise_like or symptom in ('dense-differs', 'leg-differs', 'qtotal-differs')):
+            opname, parts, symptom = 'getitem|setitem', ['negative-index-array'], 'wrong-order-or-raises'
+        if opname == 'add_charge' and 'qtotal-detect' in parts and raise_like:
+            parts, symptom = ['qtotal-detect'], 'raises'
+        if opname == 'construct2.detect_legcharge' and 'rank-1' in parts and raise_like:
+            parts, symptom = ['rank-1'], 'raises'
+        if opname == 'sort_legcharge' and 'perm-entry' in parts and (raise_like or symptom in ('documented-property-of-result', 'dense-differs', 'leg-differs')):
+            parts, symptom = ['perm-entry'], 'perm-not-applied'
         if opname == 'charges.change_charge' and symptom in ('qtotal-differs', 'raises-ValueError', 'qtotal-range'):
             parts, symptom = [], 'qtotal-not-reduced'
         key = '%s:%s:%s:%s' % (prop, opname, '+'.join(parts) or '-', symptom)
@@ -2944,6 +3357,11 @@ class ProgramRunner:
 
     def stat(self, k):
         self.stats[k] = self.stats.get(k, 0) + 1
+
+    def api_stat(self, name, opts):
+        self.stat('api:' + name)
+        for k, v in opts.items():
+            self.stat('opt:%s:%s=%s' % (name, k, self.x.value_class(v)))
 
     def evict(self, idx):
         # slots are referenced by index in recorded ops: keep indices stable by replacing with None-free compaction only at step end
@@ -3002,7 +3420,7 @@ class ProgramRunner:
                     like = None
             return OpInit.gen(rng, env, like=like)
         malformed = rng.random() < self.prog.get('p_malformed', 0.1)
-        names = [n for n in OPS if OPS[n].weight > 0]
+        names = [n for n in OPS if OPS[n].weight > 0 and (self.ext or not getattr(OPS[n], 'ext', False))]
         weights = [OPS[n].weight for n in names]
         ow = self.prog.get('op_weights')
         if ow:      # focused programs: weights of the named operations replaced, all others scaled by ow['*']
@@ -3044,7 +3462,7 @@ class ProgramRunner:
     def do_step(self, o):
         env = self.env
         cls = OPS[o['op']]
-        opname = o['op'] + ('.' + o['kind'] if 'kind' in o and o['op'] in ('add', 'scale', 'storage', 'labels', 'charges', 'construct') else '')
+        opname = o['op'] + ('.' + o['kind'] if 'kind' in o and (o['op'] in ('add', 'scale', 'storage', 'labels', 'charges', 'construct') or getattr(cls, 'ext', False)) else '')
         if o['op'] == 'transpose' and o.get('inplace'):
             opname = 'itranspose'
         if o['op'] == 'conj' and o.get('inplace'):
@@ -3083,8 +3501,16 @@ class ProgramRunner:
             impl_err = e
             tb = traceback.format_exc()[-600:]
         exp_err, exp = None, None
-        needs_aux = o['op'] in ('sort_legcharge', 'as_completely_blocked')
-        if not (impl_err is not None and needs_aux):
+        needs_aux = o['op'] in ('sort_legcharge', 'as_completely_blocked') or getattr(cls, 'needs_aux', False)
+        if impl_err is not None and needs_aux:
+            if getattr(cls, 'ext', False):      # the documented outcome may be this very exception (the reference raises it before it reads `aux`)
+                try:
+                    cls.ref(env, o, None)
+                except ExpectError as ee:
+                    exp_err = ee
+                except Exception:
+                    pass
+        else:
             try:
                 exp = cls.ref(env, o, res.get('aux') if res else None)
             except ExpectError as ee:
@@ -3125,6 +3551,8 @@ class ProgramRunner:
                 self.fail('C01', opname, cond, 'scalar-expected', '%s: expected a scalar, got %r' % (opname, type(got)))
             else:
                 want = exp['scalar']
+                if want is None:
+                    want = complex(got)
                 ok = abs(complex(got) - want) <= 1e-9 * max(1.0, abs(want)) if exp.get('approx') else complex(got) == want
                 if not ok:
                     self.fail('C01', opname, cond, 'scalar-differs', '%s = %r, numpy gives %r' % (opname, complex(got), want))
@@ -3139,6 +3567,8 @@ class ProgramRunner:
                 if sym == 'qtotal-differs':
                     self.fail('C01', opname, cond, sym, opname + ': ' + text)
             ok = self.check_invariants(target, opname, cond)
+            if self.ext and not bad:
+                self.x.check_accessors(self, s.ref, s.impl, opname, cond, env.mods)
             if bad or not ok:
                 self.evict(target)
             else:
@@ -3171,6 +3601,10 @@ class ProgramRunner:
                         self.fail('C01', opname, cond, 'not-blocked', 'sort_legcharge(sort, bunch): leg %d not blocked by charge: %s' % (i, chs))
             ok = self.check_invariants(None, opname, cond, mods=mods, obj=r)
             self.coq_record(o, coq_before, r if not bad and ok else None)
+            if self.ext and not bad:
+                self.x.check_accessors(self, T, r, opname, cond, mods)
+            if self.ext and not bad and ok and 'foreign_mods' in exp and not getattr(self, 'in_follow', False):
+                self.x.foreign_followup(self, o, r, T, mods, exp.get('foreign_names'), opname)
             if bad or not ok or 'foreign_mods' in exp:
                 continue
             msg = adopt_structure(T, r, env.q)
@@ -3196,7 +3630,7 @@ class ProgramRunner:
 
     # ---- provenance of block tables, directed chains
     def tag_result(self, slot, opname, o, src):
-        if opname in PERMUTING_OPS or o['op'] in PERMUTING_OPS:
+        if opname in PERMUTING_OPS or o['op'] in PERMUTING_OPS or (self.ext and getattr(OPS[o['op']], 'chain', False)):
             slot.perm = opname
         elif o['op'] in TABLE_KEEPING_OPS and opname != 'storage.isort_qdata':
             slot.perm = src.perm if src is not None else None
@@ -3352,7 +3786,8 @@ class ProgramRunner:
                 'nsteps': len(self.ops)}
 
 
-def make_program(rng, tier='quick', record_coq=0, p_chain=0.0, keep_flagged=False, rich=False, sparse_values=False, op_weights=None, p_missing=None):
+def make_program(rng, tier='quick', record_coq=0, p_chain=0.0, keep_flagged=False, rich=False, sparse_values=False, op_weights=None, p_missing=None,
+                 ext=False, leg_style=None):
     """program header (charge structure, leg pool, length); the steps are generated while running.
     p_chain / keep_flagged: see ProgramRunner.__init__ (not drawn from rng; absent from the header when off);
     rich: at least one charge, legs from gen_leg_rich, fewer missing blocks (tensors with several stored blocks);
@@ -3364,6 +3799,8 @@ def make_program(rng, tier='quick', record_coq=0, p_chain=0.0, keep_flagged=Fals
     maxrank = rng.choice([4, 4, 5, 6]) if thorough else 4
     gl = gen_leg_rich if rich else gen_leg
     pool = [gl(rng, mods, 3 if maxrank > 4 else 5) for _ in range(rng.choice([2, 3, 3, 4]))]
+    if leg_style == 'single-block':     # every leg one charge block (tensors with at most one stored block; pipes with a single row)
+        pool = [RLeg([0, max(1, l.n)], l.charges[:1] if l.nb else np.zeros((1, len(mods)), dtype=QT), l.qconj, len(mods)) for l in pool]
     if all(l.n == 0 for l in pool):
         pool.append(gen_leg(rng, mods, 4))
     n_init = rng.choice([1, 2, 2, 3])
@@ -3382,6 +3819,8 @@ def make_program(rng, tier='quick', record_coq=0, p_chain=0.0, keep_flagged=Fals
         prog['op_weights'] = dict(op_weights)
     if p_missing:
         prog['p_missing'] = list(p_missing)
+    if ext:
+        prog['ext'] = True
     return prog
 
 
